@@ -131,6 +131,26 @@ def replay_case(col, item):
                 col.bump("shuffle_not_instrumented")
             col.count(1)
             check_result(col, case, k, exp, got, conf)
+        # whole-degree coordinates passed as INTEGER arrays (equator embedding: lat 0, lon multiples of 45)
+        for metric in ("minkowski", "haversine"):
+            if metric == "haversine" and k >= N // 2:
+                continue
+            conf = {"embedding": "equator", "metric": metric, "integer_typed_coordinates": True, "perm": list(perms[0])}
+            try:
+                from typhon.geographical import GeoIndex
+                lat, lon = ring.latlon(EMB["equator"], B)
+                qlat, qlon = ring.latlon(EMB["equator"], Q)
+                with ForcedShuffle(perms[0]):
+                    idx = GeoIndex(lat.astype(int), lon.astype(int), metric=metric)
+                pairs, dist = idx.query(qlat.astype(int), qlon.astype(int), ring.threshold_km(k, N, metric))
+                pairs = np.asarray(pairs)
+                got = ([], [], 1) if pairs.size == 0 else ([(int(a) + 1, int(b) + 1) for a, b in zip(pairs[0], pairs[1])],
+                                                           [ring.classify(float(x), N, metric) for x in dist], 1)
+                col.count(1)
+                check_result(col, case, k, exp, got, conf)
+            except Exception as ex:
+                col.violation("query-raises-" + type(ex).__name__, {"abstract": {"N": N, "B": B, "Q": Q, "k": k}, "concrete": conf,
+                                                                    "observed": repr(ex)[:200]})
         # self-query with identical array objects, under the last (most scrambled) permutation
         if "self" in case:
             conf = {"embedding": "tilted", "metric": "minkowski", "self_query_same_objects": True, "perm": list(perms[-1])}
